@@ -302,7 +302,8 @@ pub fn build(ctx: &Ctx) -> Property {
                             if got_keys != want_keys {
                                 o.class("operations-differ-from-feature-table");
                             }
-                            if !got_keys.contains("end") || (!c.is_empty() && got_keys.len() < 2) {
+                            // (closures such as {id} or {paserk} alone enable no operation the probe could call: that is not vacuity)
+                            if !got_keys.contains("end") || (want_keys.len() >= 2 && got_keys.len() < 2) {
                                 o.violate(format!("{key}/vacuous"), format!("{krate} with features {g:?}: the probe offered no operation at all"), json!({}));
                             }
                             let mut same = true;
